@@ -64,7 +64,7 @@ type vfC05 struct {
 	returned  map[uint32]uint32 // reply token -> exchange token that returned it
 	nextTok   uint32
 	nextRTok  uint32
-	stats     struct{ overlap, reorder, dup, unsolicited, late, closes, retried, replyAndClose int }
+	stats     struct{ overlap, reorder, dup, unsolicited, late, closes, retried, replyAndClose, cutOff int }
 }
 
 func (h *vfC05) scan() {
@@ -214,7 +214,7 @@ func (h *vfC05) exchByToken(tok uint32) *vfExch {
 }
 
 func TestVfC05Pipeline(t *testing.T) {
-	st := vfkit.Stats("TestVfC05Pipeline", "state-machine histories over PipelineTransport (datagram and stream flavour, max concurrent 1-64) with actions start/cancel/reply-any-order/duplicate/unsolicited/late-after-cancel/burst/server-close on an in-memory connection with a harness-owned schedule; invariants after every step: returned reply was sent with this exchange's wire ID on its connection, caller ID restored, no reply satisfies two exchanges, wire IDs distinct per connection, caller's bytes untouched; non-trivial = >= 2 overlapping exchanges and >= 1 of reorder/duplicate/unsolicited/late")
+	st := vfkit.Stats("TestVfC05Pipeline", "state-machine histories over PipelineTransport (datagram and stream flavour, max concurrent 1-64) with actions start/cancel/reply-any-order/duplicate/unsolicited/late-after-cancel/cut-off datagram with a waiting wire ID/burst/server-close on an in-memory connection with a harness-owned schedule; invariants after every step: returned reply was sent with this exchange's wire ID on its connection, caller ID restored, no reply satisfies two exchanges, wire IDs distinct per connection, caller's bytes untouched; non-trivial = >= 2 overlapping exchanges and >= 1 of reorder/duplicate/unsolicited/late")
 	defer vfkit.Flush()
 	rapid.Check(t, func(t *rapid.T) {
 		srv := &vfServerSide{datagram: rapid.Bool().Draw(t, "datagram")}
@@ -430,6 +430,26 @@ func TestVfC05Pipeline(t *testing.T) {
 				h.stats.late++
 				h.settle()
 			},
+			"cutOffReply": func(t *rapid.T) {
+				// datagram flavour: a datagram that carries the wire ID of a waiting exchange but ends early (inside the
+				// header, right after it, or inside a record). It is not a reply: whatever the transport makes of it, the
+				// exchange must not return a message that the server never sent (e.g. one completed from an earlier datagram).
+				w, tok, ok := pickWire(t, true)
+				if !ok || !h.srv.datagram {
+					start(t)
+					return
+				}
+				h.nextRTok++
+				b := vfReply(w.wireID, tok, h.nextRTok) // this reply token is never registered as delivered
+				n := rapid.SampledFrom([]int{2, 3, 11, 12, 13}).Draw(t, "cutAt")
+				if rapid.Bool().Draw(t, "cutInsideRecords") {
+					n = rapid.IntRange(12, len(b)-1).Draw(t, "cutAtOctet")
+				}
+				h.srv.snapshot()[w.conn].Deliver(b[:n])
+				h.stats.cutOff++
+				h.srv.snapshot()[w.conn].WaitQuiet(vfStall)
+				h.settle()
+			},
 			"unsolicited": func(t *rapid.T) {
 				var open []int
 				for _, c := range h.srv.snapshot() {
@@ -480,7 +500,7 @@ func TestVfC05Pipeline(t *testing.T) {
 		h.check()
 		nontrivial := h.stats.overlap >= 1 && (h.stats.reorder+h.stats.dup+h.stats.unsolicited+h.stats.late) >= 1
 		classes := []string{}
-		for n, v := range map[string]int{"overlap": h.stats.overlap, "reorder": h.stats.reorder, "dup": h.stats.dup, "unsolicited": h.stats.unsolicited, "late": h.stats.late, "server-close": h.stats.closes, "retried": h.stats.retried, "reply-and-close-during-write": h.stats.replyAndClose} {
+		for n, v := range map[string]int{"overlap": h.stats.overlap, "reorder": h.stats.reorder, "dup": h.stats.dup, "unsolicited": h.stats.unsolicited, "late": h.stats.late, "server-close": h.stats.closes, "retried": h.stats.retried, "reply-and-close-during-write": h.stats.replyAndClose, "cut-off-datagram": h.stats.cutOff} {
 			if v > 0 {
 				classes = append(classes, n)
 			}
